@@ -274,8 +274,25 @@ Section AGG.
     Definition full (br : row * row) : row := (fst br ++ snd br)%list.
     Definition cond1 (c : option expr) (br : row * row) : option bool :=
       match c with None => Some true | Some e => truthy (eva false e [full br]) end.
+    (* ARRAY JOIN <alias0>.slice as <alias>: the rows of the select that builds `slice` are already one per array element here
+       (topk_rows below); the join gives the element's components the names <alias>.1, <alias>.2, ... *)
+    Fixpoint strip_prefix (p s : string) : option string :=
+      match p with
+      | EmptyString => Some s
+      | String c p' => match s with String d s' => if Ascii.eqb c d then strip_prefix p' s' else None | EmptyString => None end
+      end.
+    Definition array_join_row (src alias : string) (l : row) : row :=
+      (l ++ flat_map (fun kv => match strip_prefix (src ++ ".") (fst kv) with
+                                | Some suffix => [((alias ++ "." ++ suffix)%string, snd kv)]
+                                | None => [] end) l)%list.
     Definition join1a (left : option table) (j : string * expr * option expr) : option table :=
       match left, j with
+      | Some lt, (tp, Col (Id src) alias, None) =>
+        if String.eqb tp "array" then
+          (* only over a source whose elements were laid out by topk_rows *)
+          if forallb (fun l => match lookup (src ++ ".1") l with Some _ => true | None => false end) lt
+          then Some (map (array_join_row src alias) lt) else None
+        else None
       | Some lt, (tp, tbl, Some on) =>
         if String.eqb tp "ANY LEFT " || String.eqb tp "GLOBAL ANY LEFT " then
           match etab tbl with
@@ -310,7 +327,73 @@ Section AGG.
       map_opt (fun c => match eva true (col_body c) (map (fun br => (drop_key (col_name c) (fst br) ++ snd br)%list) g) with
                         | Some v => Some (col_name c, v) | None => None end) cols.
 
+    (* TopKPlanner's first select:
+         SELECT par_a.timestamp_ns as timestamp_ns,
+                arraySlice(arraySort([x -> (-x.1, x.2[, x.3]),] groupArray((par_a.value, par_a.fingerprint[, par_a.labels]))), 1, k) as slice
+         FROM par_a GROUP BY timestamp_ns
+       read together with the ARRAY JOIN that consumes it: per timestamp the tuples (value, fingerprint[, labels]) of the group,
+       sorted ascending by the key (bottomk: the tuple itself; topk: (-value, fingerprint[, labels])), the first k of them, ONE ROW
+       PER KEPT TUPLE with the components in slice.1, slice.2, slice.3. Fingerprints are distinct within a timestamp (one row per
+       series), so the third component never decides; equal (value, fingerprint) pairs keep their order after `tie`. *)
+    Definition topk_shape (e : expr) : option (Z * bool * bool) :=
+      match e with
+      | Sep sep [Raw t1; Raw lam; Raw t2; Raw lab; Raw t3; IntV k; Raw t4] =>
+        if String.eqb sep "" && String.eqb t1 "arraySlice(arraySort(" && String.eqb t2 "groupArray((par_a.value, par_a.fingerprint"
+           && String.eqb t3 "))), 1, " && String.eqb t4 ")" then
+          let hl := String.eqb lab ", par_a.labels" in
+          if negb hl && negb (String.eqb lab "") then None else
+          (* the direction is what the TEXT says: no lambda or the key (x.1, ..) = ascending values, the key (-x.1, ..) = descending *)
+          if String.eqb lam "" then Some (k, false, hl)
+          else if String.eqb lam ("x -> (-x.1, x.2" ++ (if hl then ", x.3" else "") ++ "),") then Some (k, true, hl)
+          else if String.eqb lam ("x -> (x.1, x.2" ++ (if hl then ", x.3" else "") ++ "),") then Some (k, false, hl)
+          else None
+        else None
+      | _ => None
+      end.
+    Definition tk_leb (top : bool) (a b : Q * Z * row) : bool :=
+      let va := if top then Qopp (fst (fst a)) else fst (fst a) in
+      let vb := if top then Qopp (fst (fst b)) else fst (fst b) in
+      match Qcompare va vb with
+      | Datatypes.Lt => true
+      | Datatypes.Gt => false
+      | Datatypes.Eq => Z.leb (snd (fst a)) (snd (fst b))
+      end.
+    Definition topk_rows (q : select) : option (option table) :=      (* None = not that select *)
+      match s_cols q, s_groupby q, s_from q with
+      | [Col tsx tsa; Col sl sla], [Id gk], Some f =>
+        match topk_shape sl with
+        | Some (k, top, hl) =>
+          if String.eqb tsa "timestamp_ns" && String.eqb sla "slice" && String.eqb gk "timestamp_ns"
+             && match s_where q, s_prewhere q, s_having q, s_orderby q, s_limit q, s_offset q, s_joins q, s_unions q with
+                | None, None, None, [], None, None, [], [] => negb (s_distinct q) | _, _, _, _, _, _, _, _ => false end then
+            Some (match etab f with
+                  | None => None
+                  | Some rows =>
+                    match map_opt (fun r => match eva false tsx [r], lookup "par_a.value" r, lookup "par_a.fingerprint" r with
+                                            | Some ts, Some v, Some (VInt fp) =>
+                                              match num_of v with
+                                              | Some x => Some (ts, (x, fp, ((("slice.1", v) :: ("slice.2", VInt fp) ::
+                                                                  (if hl then match lookup "par_a.labels" r with Some m => [("slice.3", m)] | None => [] end
+                                                                   else []))%list)))
+                                              | None => None end
+                                            | _, _, _ => None end) (tie _ rows) with
+                    | None => None
+                    | Some trs =>
+                      let keys := nodup_keys (map (fun x => [fst x]) trs) in
+                      Some (flat_map (fun key =>
+                              let g := map snd (filter (fun x => values_eqb [fst x] key) trs) in
+                              map (fun e => (("timestamp_ns", match key with t :: _ => t | [] => VNull end) :: snd e)%list)
+                                  (firstn (Z.to_nat k) (isort (tk_leb top) g))) keys)
+                    end
+                  end)
+          else None
+        | None => None
+        end
+      | _, _, _ => None
+      end.
+
     Definition esel_a (q : select) : option table :=
+      match topk_rows q with Some res => res | None =>
       if s_distinct q then None else
       match s_offset q, s_unions q with
       | None, [] =>
@@ -359,6 +442,7 @@ Section AGG.
           end
         end
       | _, _ => None
+      end
       end.
   End SELA.
 
